@@ -21,7 +21,8 @@ META = {
 
 VALID = ('4c', '8.dd#L', '2r', '4c 4e', '=1', '*clefG2', '.', '16qqE-J')
 # malformed kinds: unknown character (lexer error), wrong order (parser error), truncated token, valid token + garbage
-MALFORMED = ('4zz', '4c§', 'c4', '4', '#', '4c4', '*clef', '=x', '%%', '[[[', '4c 4', '4c §', '*M4/', '8.', '4rP', 'rMT')
+# (the last three: characters that are not in the lexer's alphabet at all -- only the lexer reports them)
+MALFORMED = ('4zz', '4c§', 'c4', '4', '#', '4c4', '*clef', '=x', '%%', '[[[', '4c 4', '4c §', '*M4/', '8.', '4rP', 'rMT', '4c\u20ac', '4\xa0c', '\xbf4c')
 
 POOL = VALID + MALFORMED
 
@@ -75,7 +76,7 @@ DOCS = (
     [['!!!COM: x'], ['**kern'], ['4c'], ['4d'], ['4e'], ['4f'], ['*-']],
     [['**root', '**kern', '**text'], ['C', '4c', 'la'], ['=1', '=1', '=1'], ['G', '4d', 'li'], ['4A', '4e', 'lu'], ['*-', '*-', '*-']],
 )
-KERN_BAD = ('4zz', '4c§', '%%', '4c 4', 'c4z', '', '4d ', ' 4e', '4rP', '8r 8rK', 'rMT')     # '' = a cell truncated to nothing (two adjacent TABs)     # malformed in a **kern spine (raise on a fresh importer on the pinned tree)
+KERN_BAD = ('4zz', '4c§', '%%', '4c 4', 'c4z', '', '4d ', ' 4e', '4rP', '8r 8rK', 'rMT', '4c\u20ac', '4\x7fc')     # '' = a cell truncated to nothing (two adjacent TABs)     # malformed in a **kern spine (raise on a fresh importer on the pinned tree)
 
 
 @native
@@ -104,8 +105,8 @@ def ob_b(d: int, mask: int, bad: int) -> bool:
     di = choose(d, len(DOCS))
     n = _ncells(di)
     assume(0 <= mask < 2 ** n)
-    assume(0 <= bad < len(KERN_BAD))
-    return _b_body(di, choose(mask, 2 ** n), choose(bad, len(KERN_BAD)))
+    assume(0 <= bad < 2 * len(KERN_BAD))      # second half: the SAME malformed text in every damaged cell (equal cells on one line are separate cells)
+    return _b_body(di, choose(mask, 2 ** n), choose(bad, 2 * len(KERN_BAD)))
 
 
 @native
@@ -120,7 +121,7 @@ def _b_body(di, mask, bad):
     damaged = []
     for k, (r, c) in enumerate(cells_):
         if mask >> k & 1:
-            txt = KERN_BAD[(bad + k) % len(KERN_BAD)]
+            txt = KERN_BAD[(bad + k) % len(KERN_BAD)] if bad < len(KERN_BAD) else KERN_BAD[bad - len(KERN_BAD)]
             if txt == '' and len(rows[r]) == 1:
                 continue                   # an empty cell on a one-column line is a blank line, not a cell
             if txt != '' and _fresh_outcome(txt)[0] != 'raises':
@@ -210,7 +211,7 @@ def ob_b2(s: str, blank: int, col: int, second: bool) -> bool:
 
 
 # ------------------------------------------------------------------ C12.c no silent shortening
-GARBAGE = ('=', 'x', '4', '§', ' ', 'zz', '4d', ';;')
+GARBAGE = ('=', 'x', '4', '§', ' ', 'zz', '4d', ';;', '\u20ac', '\x7f')
 
 
 @native
@@ -220,6 +221,16 @@ def _c_tokens():
 
 
 _CT = []
+_KF_IN = []
+
+
+def _kf_inputs():
+    if not _KF_IN:
+        import json
+        import os
+        with open(os.path.join(os.path.dirname(os.path.dirname(os.path.dirname(os.path.abspath(__file__)))), 'known_findings.json')) as f:
+            _KF_IN.append({t for e in json.load(f)['findings'] if e['id'] == 'KF-C12-trailing-garbage-dropped' for t in e.get('inputs', [])})
+    return _KF_IN[0]
 
 
 def ob_c(t: int, g: int) -> bool:
@@ -239,7 +250,7 @@ def _c_body(t, g):
         return True
     out = tok.export().replace('@', '').replace('·', '')      # Token.export() is the extended form
     # every character of the cell must be accounted for by the exported token (order / separators may be normalised)
-    ctx.known('KF-C12-trailing-garbage-dropped', sorted(out.replace(' ', '')) != sorted(text.replace(' ', '')))
+    ctx.known('KF-C12-trailing-garbage-dropped', text in _kf_inputs())       # the listed inputs only: any other shortened cell is reported
     check(sorted(out.replace(' ', '')) == sorted(text.replace(' ', '')),
           f'cell {text!r} was accepted but exports as {out!r}: characters were silently dropped or altered')
     return True
@@ -253,7 +264,7 @@ OBLIGATIONS = [
        bounds={'quick': 'all 24^2 + 24^3 histories', 'thorough': '+ 24^4'}),
     Ob(id='C12.b', fn=ob_b, title='documents x damage masks: one error per malformed cell with its line, other tokens untouched, verbatim export',
        shard_of=lambda d, mask, bad: mask, shards={'quick': 8, 'thorough': 16}, budget_s={'quick': 150, 'thorough': 1200},
-       witnesses=[{'d': 0, 'mask': 5, 'bad': 0}], min_confirmed=300, enumerated='document, damage mask over the **kern data cells, malformed-kind rotation',
+       witnesses=[{'d': 0, 'mask': 5, 'bad': 0}], min_confirmed=300, enumerated='document, damage mask over the **kern data cells, malformed kind (rotating over the damaged cells, or the same text in all of them)',
        bounds={'quick': '4 documents (blank lines, global comments, split/join, non-kern spines) x every subset of the first 6 data cells x 11 malformed kinds (incl. the empty cell, cells with a blank at either end, rests with note-only signs); a **root spine',
                'thorough': 'first 8 data cells'}),
     Ob(id='C12.b2', fn=ob_b2, title='stub tier: ANY rejected text is wrapped once, reported with its line, exported verbatim',
